@@ -126,3 +126,98 @@ Theorem C02_headers_total : forall bs et b, bytes_ok bs ->
   PacketHeaders.from_ip_slice bs <> Bug b.
 Proof. exact hdr_never_bug_raw. Qed.
 Print Assumptions C02_headers_total.
+
+(* ---- extend-c01b ---- *)
+(* ======================================================================== *)
+(* Totality of everything reachable from the LAX results (Parse/LaxAccess.v,
+   proofs Parse/LaxAccessProofs.v + LaxAccessPacket.v) and of IpSlice::to_header
+   (proof Parse/LaxAccessToHeader.v). *)
+From EP Require Import Parse.LaxAccess Parse.LaxAccessProofs Parse.LaxAccessPacket Parse.LaxAccessToHeader.
+
+(* every accessor / conversion / iterator / packet-level accessor run on every lax
+   whole-packet result returns normally (Ok, or the one documented Err of
+   Ipv4HeaderSlice::payload_len); together with C02_lax_total: the entry point itself
+   returns Ok or Err for every input *)
+Theorem C02_lax_accessors_total : forall bs et p, bytes_ok bs -> lax_entry bs et p ->
+  forall r, In r (LaxSlicedPacketA.accessors p) -> r = Ok tt \/ exists e, r = Err e.
+Proof. exact lax_packet_accessors_total. Qed.
+Print Assumptions C02_lax_accessors_total.
+
+(* the extension iterator over every Ipv6ExtensionsSlice that from_slice_lax returns, for
+   EVERY start number, slice and stop error: ends within length+1 calls of next, no Bug, at
+   most len/8 items, the yielded windows tile the stored slice (progress) *)
+Theorem C02_lax_exts_iter_bounded : forall nh s x nx rest err,
+  LaxIpv6Exts.from_slice_lax nh s = Ok (x, nx, rest, err) ->
+  exists l, Ipv6ExtIterA.items x = Ok l /\
+            8 * len l <= s_len (x6_slice x) /\
+            tiles (s_off (x6_slice x)) (map item_win l) (s_off (x6_slice x) + s_len (x6_slice x)) /\
+            Forall item_wf l /\
+            Forall (fun i => sub_of (ext_item_slice i) (x6_slice x)) l.
+Proof. exact lax_exts_iter_items. Qed.
+Print Assumptions C02_lax_exts_iter_bounded.
+
+(* IpSlice::to_header: for every IpSlice / Ipv4Slice / Ipv6Slice produced by a strict
+   from_slice (`from_strict s i`), the conversion returns normally.  IPv6 arm: the struct
+   decoder Ipv6Extensions::from_slice, run on the stored extension window with the
+   header's next_header, returns Ok -- the `expect` cannot fail (it may have stopped early
+   at a refilled header: see the example) *)
+Theorem C02_ip_slice_to_header_expect : forall s i,
+  from_strict s i -> bytes_ok (snd s) -> IpSliceToHeaderA.to_header i = Ok tt.
+Proof. exact ip_slice_to_header_ok. Qed.
+Print Assumptions C02_ip_slice_to_header_expect.
+
+Theorem C02_ipv6_exts_expect : forall s v,
+  from_strict s (IpV6 v) -> bytes_ok (snd s) ->
+  exists x, IpSliceToHeaderA.v6_exts_to_header v = Ok x.
+Proof. exact v6_exts_to_header_ok. Qed.
+Print Assumptions C02_ipv6_exts_expect.
+
+(* a chain accepted by the slice walker is accepted again on the window it stored *)
+Theorem C02_exts_window_reaccepted : forall nh s x nx rest,
+  Ipv6ExtensionsSlice.from_slice nh s = Ok (x, nx, rest) ->
+  exists x' rest', Ipv6ExtensionsSlice.from_slice nh (x6_slice x) = Ok (x', nx, rest').
+Proof. exact exts_trunc. Qed.
+Print Assumptions C02_exts_window_reaccepted.
+
+(* ---- non-vacuity ---------------------------------------------------------- *)
+(* IPv6 / destination options / destination options / UDP: the slice walker accepts both
+   headers (window 40+16, iterator yields two items); the struct decoder fills its single
+   slot with the first and stops in front of the second -- Ok, no error: to_header = Ok *)
+Definition ex_refill : bytes :=
+  [96;0;0;0; 0;24; 60; 64] ++ repeat 1 16 ++ repeat 2 16 ++
+  [60;0;0;0;0;0;0;0] ++ [17;0;0;0;0;0;0;0] ++ [0;1;0;2;0;8;0;0].
+
+Example C02_to_header_ex :
+  bytes_ok ex_refill /\
+  match IpSlice.from_slice (mk_slice ex_refill) with
+  | Ok (IpV6 v as i) =>
+      (win_of (x6_slice (v6_exts v)), IpSliceToHeaderA.to_header i,
+       match IpSliceToHeaderA.v6_exts_to_header v with
+       | Ok x => Some (option_map win_of (HdrModel.x_dest x), option_map win_of (HdrModel.x_fdest x))
+       | _ => None
+       end,
+       match Ipv6ExtIterA.items (v6_exts v) with Ok l => Some (map item_win l) | _ => None end)
+  | _ => ((0, 0), Bug 0, None, None)
+  end = ((40, 16), Ok tt, Some (Some (40, 8), None), Some [(40, 8); (48, 8)]) /\
+  (* the expect site is reachable in the model: a window the walker did not validate *)
+  IpSliceToHeaderA.v6_exts_to_header
+    (mkIpv6Slice (mk_slice (firstn 40 ex_refill)) (mkIpv6Exts (Some 60) false (40, [60;0;0;0])) 
+       (mkIpPayload 17 false LsSlice (44, []))) = Bug SITE_UNWRAP.
+Proof.
+  split; [apply bytes_okb_spec; vm_compute; reflexivity|]. split; vm_compute; reflexivity.
+Qed.
+
+(* the cut chain of C01_lax_cut_chain_ex: the iterator run on the lax result ends after one item *)
+Example C02_lax_exts_iter_ex :
+  match LaxSlicedPacket.from_ip ([96;0;0;0; 0;8; 60; 64] ++ repeat 0 32 ++ [43;0;0;0;0;0;0;0]) with
+  | Ok p =>
+      (forallb (fun r => match r with Ok _ => true | _ => false end) (LaxSlicedPacketA.accessors p),
+       match lsp_net p with
+       | Some (LNtIpv6 v) =>
+           match Ipv6ExtIterA.items (lv6_exts v) with Ok l => Some (map item_win l) | _ => None end
+       | _ => None
+       end)
+  | _ => (false, None)
+  end = (true, Some [(40, 8)]).
+Proof. vm_compute. reflexivity. Qed.
+(* ---- end extend-c01b ---- *)
